@@ -18,7 +18,7 @@ from mc import core, httpharness as hh
 PROPERTY = 'C15'
 LEVEL = 'model_checking'
 RULE = ('case = body kind {empty str, str, bytes, list, list with None, returned generator (coroutine), streamed generator of str / of '
-        'bytes / with empty items first-middle-last / many chunks, file object, file-like object with short reads, streamed list, non-streamed generator / tuple, str / bytes / list with streaming switched on, streamed generator failing before the first / after the second chunk} x size {0, small with multi-byte '
+        'bytes / with empty items first-middle-last / with None items / many chunks, file object, file-like object with short reads, streamed list, non-streamed generator / tuple, str / bytes / list with streaming switched on, streamed generator failing before the first / after the second chunk} x size {0, small with multi-byte '
         'characters, 70 KiB} x status {200, 201, 204, 304, 302 via a returned redirect event, 303 via raise Redirect, 403 via raise Forbidden, 404 via notfound(), 500 via raise} x entry {plain component handling `request`, Controller method behind the Dispatcher} x HTTP/1.0 | 1.1 x Connection {absent, '
         'keep-alive, close; also written Close, CLOSE, Keep-Alive, KEEP-ALIVE and inside a list of options} x {GET, HEAD}; every single case and every sequence of 2 (thorough: 3 from a reduced menu) cases on one '
         'connection; non-trivial = every case; distinct = distinct case sequence')
@@ -48,7 +48,7 @@ def chunks(text, n):
 
 
 KINDS = ['str', 'bytes', 'list', 'listnone', 'coroutine', 'gen_str', 'gen_bytes', 'gen_empty_first', 'gen_empty_mid', 'gen_empty_last',
-         'gen_many', 'file', 'shortread_file', 'stream_list', 'gen_nostream', 'tuple', 'stream_str', 'stream_bytes', 'stream_plainlist']
+         'gen_many', 'file', 'shortread_file', 'stream_list', 'gen_nostream', 'tuple', 'stream_str', 'stream_bytes', 'stream_plainlist', 'gen_none_mid']
 
 
 def make_body(kind, size, res):
@@ -67,7 +67,7 @@ def make_body(kind, size, res):
     if kind == 'coroutine':
         # a generator RETURNED by a handler is a coroutine for the manager: its yields accumulate into the value
         return None, data
-    if kind in ('gen_str', 'gen_bytes', 'gen_empty_first', 'gen_empty_mid', 'gen_empty_last', 'gen_many', 'stream_list'):
+    if kind in ('gen_str', 'gen_bytes', 'gen_empty_first', 'gen_empty_mid', 'gen_empty_last', 'gen_many', 'stream_list', 'gen_none_mid'):
         items = chunks(text, 12 if kind == 'gen_many' else 3)
         if kind == 'gen_bytes':
             items = [i.encode('utf-8') for i in items]
@@ -77,6 +77,8 @@ def make_body(kind, size, res):
             items = items[:1] + ['', ''] + items[1:]
         elif kind == 'gen_empty_last':
             items = items + ['']
+        elif kind == 'gen_none_mid':
+            items = [None] + items[:1] + [None] + items[1:]       # None parts are skipped, as in list bodies
         res.stream = True
         res.body = iter(items) if kind == 'stream_list' else (x for x in items)
         return res, data
